@@ -1079,3 +1079,301 @@ Proof.
   rewrite (bins_spread_erase best). destruct (bins_spread best =? 0); cbn [rmap]; [reflexivity|].
   apply (rnp_rec_erase valueof nameof items Hpos HN (S k) k false [] items best). apply incl_refl.
 Qed.
+
+(** ---------------------------------------------------------------------------------- *)
+(** * c. C06 for ckk, snp, rnp                                                          *)
+(** ---------------------------------------------------------------------------------- *)
+Section InstancesCKK.
+  Context {A : Type} (valueof nameof : A -> Z).
+  Local Notation nonneg := (Forall (fun x : A => 0 <= valueof x)).
+
+  (** two bins: every sums-family output *)
+  Theorem C06_ckk_2 : forall o items, keeps o = false -> nonneg items -> names_ok valueof nameof items ->
+    run_output_r o (fun keep => ckk valueof nameof keep 2 items) =
+    rmap (fun b => derive o (sums b)) (ckk valueof nameof true 2 items).
+  Proof.
+    intros o items Hk Hpos HN.
+    apply (C06_schema_r (fun keep => ckk valueof nameof keep 2 items)); [|exact Hk].
+    apply ckk_erase_2; assumption.
+  Qed.
+
+  (** any number of bins: the Difference output (and the bin count) *)
+  Theorem C06_ckk_difference : forall k items, (1 <= k)%nat -> items <> [] -> nonneg items ->
+    names_ok valueof nameof items ->
+    run_output_r ODifference (fun keep => ckk valueof nameof keep k items) =
+    rmap (fun b => derive ODifference (sums b)) (ckk valueof nameof true k items).
+  Proof.
+    intros k items Hk Hne Hpos HN. unfold run_output_r. cbn [keeps].
+    destruct (ckk_erase_value valueof nameof k items Hk Hne Hpos HN) as (bt & bf & Et & Ef & _ & Hd).
+    rewrite Ef, Et. cbn [rmap extract derive]. rewrite Hd. reflexivity.
+  Qed.
+
+  Theorem C06_ckk_bincount : forall k items, (1 <= k)%nat -> items <> [] -> nonneg items ->
+    run_output_r OBinCount (fun keep => ckk valueof nameof keep k items) =
+    rmap (fun b => derive OBinCount (sums b)) (ckk valueof nameof true k items).
+  Proof.
+    intros k items Hk Hne Hpos. unfold run_output_r. cbn [keeps].
+    destruct (ckk_partition valueof nameof k items Hk Hne) as (bt & Et & (_ & Lt & _)).
+    destruct (ckk_sums_partition valueof nameof k items Hk Hne Hpos) as (bf & (_ & Lf & _) & _ & Ef).
+    rewrite Ef, Et. cbn [rmap extract derive]. rewrite sums_erase. unfold sums. rewrite !map_length.
+    f_equal. f_equal. transitivity k; [exact Lf|symmetry; exact Lt].
+  Qed.
+
+  Theorem C06_snp : forall o k items, keeps o = false -> nonneg items -> names_ok valueof nameof items ->
+    run_output_r o (fun keep => snp valueof nameof keep k items) =
+    rmap (fun b => derive o (sums b)) (snp valueof nameof true k items).
+  Proof.
+    intros o k items Hk Hpos HN.
+    apply (C06_schema_r (fun keep => snp valueof nameof keep k items)); [|exact Hk].
+    apply snp_erase; assumption.
+  Qed.
+
+  Theorem C06_rnp : forall o k items, keeps o = false -> nonneg items -> names_ok valueof nameof items ->
+    run_output_r o (fun keep => rnp valueof nameof keep k items) =
+    rmap (fun b => derive o (sums b)) (rnp valueof nameof true k items).
+  Proof.
+    intros o k items Hk Hpos HN.
+    apply (C06_schema_r (fun keep => rnp valueof nameof keep k items)); [|exact Hk].
+    apply rnp_erase; assumption.
+  Qed.
+End InstancesCKK.
+
+(** ---------------------------------------------------------------------------------- *)
+(** * counterexamples and the generator                                                 *)
+(** ---------------------------------------------------------------------------------- *)
+Definition zid (x : Z) : Z := x.
+Definition named : Type := (Z * Z)%type.      (* (name, value) *)
+Definition nm (x : named) : Z := fst x.
+Definition vl (x : named) : Z := snd x.
+
+(** [names_ok] cannot be dropped: when all items carry the same name the contents manager
+    merges combinations with different sums and misses the optimum, while the sums manager
+    (which never looks at names) finds it *)
+Example ckk_erase_needs_names_ok :
+  rmap erase (ckk zid (fun _ => 0) true 2 [4; 5; 6; 7; 8]) = Ok [(12, []); (18, [])] /\
+  ckk zid (fun _ => 0) false 2 [4; 5; 6; 7; 8] = Ok [(15, []); (15, [])].
+Proof. vm_compute. split; reflexivity. Qed.
+
+Example snp_erase_needs_names_ok :
+  rmap erase (snp zid (fun _ => 0) true 2 [4; 5; 6; 7; 8]) = Ok [(14, []); (16, [])] /\
+  snp zid (fun _ => 0) false 2 [4; 5; 6; 7; 8] = Ok [(15, []); (15, [])].
+Proof. vm_compute. split; reflexivity. Qed.
+
+Example rnp_erase_needs_names_ok :
+  rmap erase (rnp zid (fun _ => 0) true 2 [4; 5; 6; 7; 8]) = Ok [(12, []); (18, [])] /\
+  rnp zid (fun _ => 0) false 2 [4; 5; 6; 7; 8] = Ok [(15, []); (15, [])].
+Proof. vm_compute. split; reflexivity. Qed.
+
+(** the two searches are different even when the answers agree: numbers of heaps popped *)
+Example ckk_managers_search_differently :
+  ckk_nodes (ckk_run zid zid true true None 3 [1; 1; 1; 2; 3; 3; 5]) = 19%nat /\
+  ckk_nodes (ckk_run zid zid false true None 3 [1; 1; 1; 2; 3; 3; 5]) = 16%nat /\
+  rmap erase (ckk zid zid true 3 [1; 1; 1; 2; 3; 3; 5]) = ckk zid zid false 3 [1; 1; 1; 2; 3; 3; 5].
+Proof. vm_compute. repeat split; reflexivity. Qed.
+
+(** ckk_generator.  With an explicit bound (the mode used by rnp) every partition better
+    than the bound is yielded; the contents manager yields partitions that differ only in
+    their contents separately, the sums manager yields each vector of sums once: the
+    equation  map erase (generator true) = generator false  is FALSE, even with two bins,
+    distinct names and positive values. *)
+Definition gen_items : list named := [(1, 1); (2, 1); (3, 2); (4, 2); (5, 3)].
+
+Example ckk_generator_erase_false_bounded :
+  length (ckk_generator vl nm true 2 gen_items (Some (-10))) = 16%nat /\
+  length (ckk_generator vl nm false 2 gen_items (Some (-10))) = 15%nat.
+Proof. vm_compute. split; reflexivity. Qed.
+
+(** In the default mode (bound -inf) only strict improvements are yielded and the equation
+    held on every input tried (all lists of 5..6 named items with values in 1..4, 2..4 bins).
+    OPEN: forall k items, nonneg items -> names_ok items ->
+            map erase (ckk_generator valueof nameof true k items None) =
+            ckk_generator valueof nameof false k items None.
+    (The last element of both lists is related by [ckk_erase_2] / [ckk_erase_value], since
+    ckk returns the last yield; the earlier yields depend on the order in which subtrees
+    with tied keys are visited, which differs between the managers.) *)
+Example ckk_generator_default_example :
+  map erase (ckk_generator vl nm true 3 gen_items None) = ckk_generator vl nm false 3 gen_items None /\
+  ckk_generator vl nm false 3 gen_items None = [[(3, []); (3, []); (3, [])]].
+Proof. vm_compute. split; reflexivity. Qed.
+
+(** ---------------------------------------------------------------------------------- *)
+(** * examples (concrete runs; several are the doctests of the adaptors)                *)
+(** ---------------------------------------------------------------------------------- *)
+
+(** b. extractors *)
+Example ex_extract :
+  let b : bins Z := [(11, [7; 4]); (8, [8]); (11, [6; 5])] in
+  extract OSums (erase b) = OutSums [11; 8; 11] /\
+  extract OSorted (erase b) = OutSums [8; 11; 11] /\
+  extract OLargest (erase b) = OutNum 11 /\
+  extract OSmallest (erase b) = OutNum 8 /\
+  extract OExtreme (erase b) = OutPair 8 11 /\
+  extract ODifference (erase b) = OutNum 3 /\
+  extract OBinCount (erase b) = OutCount 3 /\
+  extract OPartition b = OutLists [[7; 4]; [8]; [6; 5]] /\
+  extract OPartition (erase b) = OutLists [[]; []; []].
+Proof. vm_compute. repeat split; reflexivity. Qed.
+
+(** d. sums are the totals of the lists *)
+Example ex_wf :
+  let b : bins Z := [(11, [7; 4]); (8, [8]); (11, [6; 5])] in
+  wf zid b /\ sums (erase b) = map (fun l => zsum (map zid l)) (lists b).
+Proof. split; [repeat constructor|reflexivity]. Qed.
+
+(** c. partitioning *)
+Example ex_greedy :
+  run_partition OSorted (@greedy Z) zid 3 [4; 5; 6; 7; 8] = OutSums [8; 11; 11] /\
+  run_partition OPartitionAndSums (@greedy Z) zid 3 [4; 5; 6; 7; 8] =
+    OutBins [(8, [8]); (11, [7; 4]); (11, [6; 5])].
+Proof. vm_compute. split; reflexivity. Qed.
+
+Example ex_roundrobin :
+  run_partition OExtreme (@roundrobin Z) zid 3 [4; 5; 6; 7; 8] = OutPair 6 13 /\
+  run_partition OPartition (@roundrobin Z) zid 3 [4; 5; 6; 7; 8] = OutLists [[8; 5]; [7; 4]; [6]].
+Proof. vm_compute. split; reflexivity. Qed.
+
+Example ex_kk :
+  run_partition_r ODifference (@kk Z) zid 3 [4; 5; 6; 7; 8] = Ok (OutNum 3) /\
+  run_partition_r OPartitionAndSums (@kk Z) zid 3 [4; 5; 6; 7; 8] =
+    Ok (OutBins [(8, [8]); (11, [4; 7]); (11, [5; 6])]).
+Proof. vm_compute. split; reflexivity. Qed.
+
+Example ex_cg :
+  run_output_o OSorted (fun keep => cg zid keep MinLargest (mk_flags true true true true) None 3 [4; 5; 6; 7; 8])
+    = Some (OutSums [8; 11; 11]) /\
+  run_output_o OPartitionAndSums
+    (fun keep => cg zid keep MinLargest (mk_flags true true true true) None 3 [4; 5; 6; 7; 8])
+    = Some (OutBins [(8, [8]); (11, [7; 4]); (11, [6; 5])]).
+Proof. vm_compute. split; reflexivity. Qed.
+
+(** partition(algorithm=dp, numbins=3, items=[1,2,3,3,5,9,9], outputtype=LargestSum) = 11 *)
+Example ex_dp :
+  run_output_r OLargest (fun keep => dp zid keep MinDiff 3 [1; 2; 3; 3; 5; 9; 9]) = Ok (OutNum 11) /\
+  run_output_r OPartition (fun keep => dp zid keep MinDiff 3 [1; 2; 3; 3; 5; 9; 9]) =
+    Ok (OutLists [[1; 9]; [2; 9]; [3; 3; 5]]).
+Proof. vm_compute. split; reflexivity. Qed.
+
+(** partition(optimal, 2, {"a":1,"b":2,"c":3,"d":3,"e":5,"f":9,"g":9}, outputtype=Sums) = [16,16];
+    partition(optimal, 3, the same) = [['a','g'],['c','d','e'],['b','f']] *)
+Definition items_ag : list named := [(1, 1); (2, 2); (3, 3); (4, 3); (5, 5); (6, 9); (7, 9)].
+
+Example ex_ckk :
+  run_output_r OSums (fun keep => ckk vl nm keep 2 items_ag) = Ok (OutSums [16; 16]) /\
+  run_output_r OSums (fun keep => ckk vl nm keep 3 items_ag) = Ok (OutSums [10; 11; 11]) /\
+  run_output_r OPartition (fun keep => ckk vl nm keep 3 items_ag) =
+    Ok (OutLists [[(1, 1); (7, 9)]; [(3, 3); (4, 3); (5, 5)]; [(2, 2); (6, 9)]]).
+Proof. vm_compute. repeat split; reflexivity. Qed.
+
+Example ex_snp_rnp :
+  run_output_r OSums (fun keep => snp vl nm keep 3 items_ag) = Ok (OutSums [10; 11; 11]) /\
+  run_output_r OPartitionAndSums (fun keep => snp vl nm keep 3 items_ag) =
+    Ok (OutBins [(10, [(1, 1); (6, 9)]); (11, [(2, 2); (7, 9)]); (11, [(4, 3); (5, 5); (3, 3)])]) /\
+  run_output_r OSorted (fun keep => rnp vl nm keep 3 items_ag) = Ok (OutSums [10; 11; 11]) /\
+  run_output_r OPartitionAndSums (fun keep => rnp vl nm keep 3 items_ag) =
+    Ok (OutBins [(10, [(1, 1); (6, 9)]); (11, [(2, 2); (7, 9)]); (11, [(4, 3); (5, 5); (3, 3)])]).
+Proof. vm_compute. repeat split; reflexivity. Qed.
+
+Example ex_cbldm :
+  cbldm zid 2 [8; 7; 6; 5; 4] true 1 true None = Ok (CbBins [(15, [4; 6; 5]); (15, [8; 7])], 15%nat) /\
+  run_output ODifference (fun _ : bool => [(15, [4; 6; 5]); (15, [8; 7])]) = OutNum 0.
+Proof. vm_compute. split; reflexivity. Qed.
+
+(** c. packing: the doctests of packing/adaptors.py *)
+Definition ffd_items : list Z := [44; 24; 24; 22; 21; 17; 8; 8; 6; 6].
+
+Example ex_ffd :
+  run_pack_r OBinCount (@first_fit_decreasing Z) zid 60 ffd_items = Ok (OutCount 3) /\
+  run_pack_r OBinCount (@first_fit_decreasing Z) zid 61 ffd_items = Ok (OutCount 4) /\
+  run_pack_r OSums (@first_fit_decreasing Z) zid 60 ffd_items = Ok (OutSums [60; 60; 60]) /\
+  run_pack_r OPartition (@first_fit_decreasing Z) zid 60 ffd_items =
+    Ok (OutLists [[44; 8; 8]; [24; 24; 6; 6]; [22; 21; 17]]).
+Proof. vm_compute. repeat split; reflexivity. Qed.
+
+Example ex_fit :
+  run_pack_r OSums (@first_fit Z) zid 10 [5; 7; 5; 2; 4; 2; 5; 1; 6] = Ok (OutSums [10; 10; 6; 5; 6]) /\
+  run_pack_r OLargest (@first_fit Z) zid 10 [5; 7; 5; 2; 4; 2; 5; 1; 11] = Err ValueError /\
+  run_pack_r OPartition (@first_fit Z) zid 10 [5; 7; 5; 2; 4; 2; 5; 1; 11] = Err ValueError /\
+  run_pack_r OSums (@best_fit Z) zid 10 [5; 7; 5; 2; 4; 2; 5; 1; 6] = Ok (OutSums [10; 10; 6; 5; 6]) /\
+  run_pack_r OPartition (@best_fit Z) zid 10 [5; 7; 5; 2; 4; 2; 5; 1; 6] =
+    Ok (OutLists [[5; 5]; [7; 2; 1]; [4; 2]; [5]; [6]]) /\
+  run_pack_r OBinCount (@best_fit_decreasing Z) zid 10 [5; 7; 5; 2; 4; 2; 5; 1; 6] = Ok (OutCount 4).
+Proof. vm_compute. repeat split; reflexivity. Qed.
+
+Example ex_bin_completion :
+  run_output_r OBinCount (fun keep => bin_completion keep 100 1000 [99; 97; 94; 93; 8; 5; 4; 2]) =
+    Ok (OutCount 5) /\
+  run_output_r OPartition (fun keep => bin_completion keep 100 1000 [99; 97; 94; 93; 8; 5; 4; 2]) =
+    Ok (OutLists [[99]; [97; 2]; [94; 5]; [93; 4]; [8]]).
+Proof. vm_compute. split; reflexivity. Qed.
+
+Example ex_cover :
+  run_pack OSums (@cover_decreasing Z) zid 10 [5; 7; 5; 2; 4; 2; 5; 1; 6] = OutSums [13; 10; 11] /\
+  run_pack OPartition (@cover_decreasing Z) zid 10 [5; 7; 5; 2; 4; 2; 5; 1; 6] =
+    OutLists [[7; 6]; [5; 5]; [5; 4; 2]] /\
+  run_pack OSmallest (@cover_twothirds Z) zid 10 [5; 7; 5; 2; 4; 2; 5; 1; 6] = OutNum 10 /\
+  run_pack OPartitionAndSums (@cover_twothirds Z) zid 10 [5; 7; 5; 2; 4; 2; 5; 1; 6] =
+    OutBins [(10, [7; 1; 2]); (12, [6; 2; 4]); (10, [5; 5])] /\
+  run_pack OBinCount (@cover_threequarters Z) zid 10 [5; 7; 5; 2; 4; 2; 5; 1; 6] = OutCount 3 /\
+  run_pack OPartitionAndSums (@cover_threequarters Z) zid 10 [5; 7; 5; 2; 4; 2; 5; 1; 6] =
+    OutBins [(10, [7; 1; 2]); (13, [6; 2; 5]); (10, [5; 5])].
+Proof. vm_compute. repeat split; reflexivity. Qed.
+
+(** ---------------------------------------------------------------------------------- *)
+Check sums_erase. Check length_erase. Check lists_erase.
+Check extract_derive. Check extract_erase. Check extract_erase_same. Check derive_sorted.
+Check extract_erase_OSums. Check extract_erase_OLargest. Check extract_erase_OSmallest.
+Check extract_erase_OExtreme. Check extract_erase_OSorted. Check extract_erase_ODifference.
+Check extract_erase_OBinCount.
+Check wf_erase_sums. Check wf_sums_lists. Check wf_erase_sums_lists.
+Check C06_schema. Check C06_schema_extract. Check C06_schema_observed. Check C06_schema_lists.
+Check C06_schema_r. Check C06_schema_r_ok. Check C06_schema_r_err. Check C06_schema_o. Check C06_schema_const.
+Check C06_greedy. Check C06_roundrobin. Check C06_kk. Check C06_cg. Check C06_dp.
+Check C06_first_fit. Check C06_first_fit_decreasing. Check C06_best_fit. Check C06_best_fit_decreasing.
+Check C06_bin_completion.
+Check C06_cover_decreasing. Check C06_cover_twothirds. Check C06_cover_threequarters.
+Check C06_greedy_lists. Check C06_cbldm.
+Check all_combinations_false_in. Check ckk_bound_admissible_all.
+Check ckk_sums_partition. Check ckk_sums_optimal. Check ckk_erase_value. Check ckk_erase_2.
+Check snp_erase. Check rnp_erase.
+Check C06_ckk_2. Check C06_ckk_difference. Check C06_ckk_bincount. Check C06_snp. Check C06_rnp.
+
+Print Assumptions sums_erase.
+Print Assumptions length_erase.
+Print Assumptions extract_derive.
+Print Assumptions extract_erase.
+Print Assumptions extract_erase_same.
+Print Assumptions derive_sorted.
+Print Assumptions wf_erase_sums.
+Print Assumptions wf_sums_lists.
+Print Assumptions C06_schema.
+Print Assumptions C06_schema_observed.
+Print Assumptions C06_schema_lists.
+Print Assumptions C06_schema_r.
+Print Assumptions C06_schema_o.
+Print Assumptions C06_schema_const.
+Print Assumptions C06_greedy.
+Print Assumptions C06_roundrobin.
+Print Assumptions C06_kk.
+Print Assumptions C06_cg.
+Print Assumptions C06_dp.
+Print Assumptions C06_first_fit.
+Print Assumptions C06_first_fit_decreasing.
+Print Assumptions C06_best_fit.
+Print Assumptions C06_best_fit_decreasing.
+Print Assumptions C06_bin_completion.
+Print Assumptions C06_cover_decreasing.
+Print Assumptions C06_cover_twothirds.
+Print Assumptions C06_cover_threequarters.
+Print Assumptions C06_greedy_lists.
+Print Assumptions C06_cbldm.
+Print Assumptions ckk_sums_partition.
+Print Assumptions ckk_sums_optimal.
+Print Assumptions ckk_erase_value.
+Print Assumptions ckk_erase_2.
+Print Assumptions snp_erase.
+Print Assumptions rnp_erase.
+Print Assumptions C06_ckk_2.
+Print Assumptions C06_ckk_difference.
+Print Assumptions C06_ckk_bincount.
+Print Assumptions C06_snp.
+Print Assumptions C06_rnp.
